@@ -485,6 +485,16 @@ uint32_t FusionEngineFramer::Resync() {
     next_byte_index_ = offset + 1;
     int32_t message_size = OnByte(true);
 
+    // If OnByte() found a second SYNC0 directly after the first, it keeps
+    // waiting for SYNC1 and moves next_byte_index_ back, expecting the next
+    // incoming byte to overwrite the duplicate. The bytes replayed here are
+    // already in the buffer and are not overwritten, so the candidate would no
+    // longer start at buffer_[0]. Instead, reject the first SYNC0: the search
+    // restarts just after it, finds the duplicate, and shifts it to the front.
+    if (state_ == State::SYNC1 && offset > 0) {
+      state_ = State::SYNC0;
+    }
+
     if (state_ == State::SYNC0) {
       // Note that offset will be incremented when we loop around, so we set it
       // to N-1, where N is wherever we want to start searching next.
